@@ -114,7 +114,9 @@ class FPFormat:
         class QuantiseBackward(torch.autograd.Function):
             @staticmethod
             def forward(ctx: torch.autograd.function.FunctionCtx, x: Tensor) -> Tensor:
-                return x
+                # Not `x` itself: autograd forbids in-place ops on an input that a
+                # custom Function returns as-is (e.g. `y = linear(x); y += skip`)
+                return x.clone()
 
             @staticmethod
             def backward(  # type:ignore[override]
